@@ -165,6 +165,11 @@ def run_case(case):
         c.check(bool(np.all(np.diag(W) > 0)), "positive_diagonal", lambda: f"diagonal {np.diag(W).tolist()}", tags)
         Wref = np.linalg.cholesky(np.linalg.inv(Cf))
         c.close(W, Wref, "factor", "weights vs Cholesky factor of the inverse covariance (from the exact covariance)", tags, rtol=rt, scale=float(np.abs(Wref).max()) * rt / 2.0**-52, kappa=1.0)
+        # whitening is unsupervised: labels handed to fit (as a pipeline would) must not change it
+        ylab = np.arange(n) % 2
+        m2 = Whitening(pinv=case["pinv"]).fit(_mk(X, case["kind"]), ylab)
+        c.close(np.asarray(m2.weights, float), W, "labels_ignored", "Whitening.fit(X, y) vs Whitening.fit(X)", tags, rtol=1e-12)
+        c.transitions += 1
         Xt = X.copy()
         Y = np.asarray(m.transform(Xt), float)
         Y2 = np.asarray(m.transform(Xt), float)
